@@ -169,6 +169,75 @@ def long_string(rng, tails=("",)):
     return t + tail
 
 
+def sweep_cases(rng, fraction=1.0):
+    """DIMENSION SWEEPS: one program for (nearly) every size along each dimension a renderer, a parser or the choice function could treat
+    specially from some size on — tuple length 1..130, else-if chain 1..100, groups per return 1..130, splitter count 1..40, literal length
+    0..320, integer literal digits 1..70, weight magnitude 1e-320..1e300, identifier length 1..300 — each asked on inputs at its edges.
+    `fraction` < 1 keeps a seeded sample of the sizes (every size is met within a few runs)."""
+    L = lambda t: lit_str(t, quote='"')
+    one = lambda t: ("ret", [(L(t), "1")])
+    keep = lambda: rng.random() < fraction
+    cases = []
+
+    def add(prog, envs):
+        cases.append({"prog": prog, "text": render(prog, rng, "plain"), "envs": envs})
+
+    for k in range(1, 131):          # tuple length
+        if not keep():
+            continue
+        strs = k % 2 == 0
+        members = [("lit", L("m%d" % i) if strs else lit_int(3 * i)) for i in range(k)]
+        val = (lambda i: "m%d" % i) if strs else (lambda i: 3 * i)
+        cond = ("if", ("cmp", ("id", "x"), rng.choice(["in", "not in"]), ("tuple", members)), one("T"), ("else", one("F")))
+        probes = {0, k - 1, k // 2, min(k - 1, 31), min(k - 1, 32), min(k - 1, 63), min(k - 1, 64)}
+        envs = [{"u": 1, "x": val(i)} for i in sorted(probes)] + [{"u": 1, "x": val(k)}, {"u": 1, "x": (val(0) + val(k - 1)) if k > 1 else None}]
+        add(Program("e", None, ["u"], cond, {"u": "any", "x": "any"}), envs)
+    for k in range(1, 101):          # else-if chain
+        if not keep():
+            continue
+        sub = ("else", one("z"))
+        for i in range(k, 0, -1):
+            sub = ("elif", ("cmp", ("id", "x"), "==", ("lit", lit_int(i))), one("b%d" % i), sub)
+        add(Program("e", None, ["u"], ("if", ("cmp", ("id", "x"), "==", ("lit", lit_int(0))), one("b0"), sub), {"u": "any", "x": "int"}),
+            [{"u": 1, "x": v} for v in (0, 1, k // 2, k, k + 1)])
+    for k in range(1, 131):          # groups per return
+        if not keep():
+            continue
+        groups = [(L("g%d" % i), str(1 + (i * 7) % 5)) for i in range(k)]
+        add(Program("e", L("s"), ["u"], ("ret", groups), {"u": "any"}), [{"u": "unit%d" % j} for j in range(6)])
+    for k in list(range(1, 41)) + [64, 100]:          # splitter count
+        if not keep():
+            continue
+        names = ["s%02d" % i for i in range(k)]
+        add(Program("e", L("s"), names, ("ret", [(L("a"), "1"), (L("b"), "2"), (L("c"), "1")]), {x: "any" for x in names}),
+            [{x: "v%d" % ((j + i) % 7) for i, x in enumerate(names)} for j in range(3)])
+    for n in list(range(0, 90)) + list(range(90, 321, 10)) + [255, 256, 257]:          # literal length
+        if not keep():
+            continue
+        lit = L("".join("abcdefghij"[i % 10] for i in range(n)))
+        cond = ("if", ("cmp", ("id", "x"), "==", ("lit", lit)), ("ret", [(lit, "1")]), ("else", one("F")))
+        add(Program("e", lit if n % 3 == 0 else None, ["u"], cond, {"u": "any", "x": "str"}), [{"u": 1, "x": lit.value}, {"u": 1, "x": lit.value + "x"}, {"u": 1, "x": lit.value[:-1]}])
+    for d in list(range(1, 71)) + [100, 308, 309, 1000, 4299]:          # integer literal digits
+        if not keep():
+            continue
+        n = int("7" * d)
+        cond = ("if", ("cmp", ("id", "x"), ">=", ("lit", lit_int(n))), ("ret", [(lit_int(n), "1")]), ("else", one("F")))
+        add(Program("e", None, ["u"], cond, {"u": "any", "x": "int"}), [{"u": 1, "x": n}, {"u": 1, "x": n - 1}, {"u": 1, "x": n + 1}, {"u": 1, "x": float(n) if d < 300 else n}])
+    for e in range(-320, 301, 5):          # weight magnitude (one scale per vector)
+        if not keep():
+            continue
+        def w(m):
+            return ("0." + "0" * (-e - 1) + str(m)) if e < 0 else str(m) + "0" * e + (".0" if e % 2 else "")
+        add(Program("e", None, ["u"], ("ret", [(L("a"), w(2)), (L("b"), w(6)), (L("c"), w(8))]), {"u": "any"}), [{"u": "unit%d" % j} for j in range(8)])
+    for n in list(range(1, 80, 3)) + [100, 200, 255, 256, 300]:          # identifier length
+        if not keep():
+            continue
+        name = ("f" + "x" * n)[:n] if n > 1 else "f"
+        cond = ("if", ("cmp", ("id", name), ">", ("lit", lit_int(3))), one("hi"), ("else", one("lo")))
+        add(Program(name + "_e", None, [name, "u"], cond, {name: "int", "u": "any"}), [{name: 5, "u": 1}, {name: 1, "u": 1}])
+    return cases
+
+
 def membership_cases(rng, n):
     """membership tests against literal tuples of 1..24 members (all scalar literals; with an identifier; with a nested tuple), asked
     with values of every kind a caller's record can hold — also unhashable ones (a list, a dict, a set, a composite id decoded from
